@@ -194,6 +194,32 @@ _INFIX = {
 SHAPE_ONLY_OPS = {"np.ones_like", "np.zeros_like", "shape_struct", "np.shape", "np.ndim", "len", "np.empty_like", "unravel_of", "np.zeros", "np.ones", "np.eye", "treedef_depth_one"}
 
 
+def value_subterms(x):
+    """Sub-terms a value depends on *by value* (same traversal as value_atoms): nothing inside shape-only constructs -- an eval_shape result, the example
+    or the recorded dtype of an unravel closure, `.shape` / `.dtype` of anything -- is computed with."""
+    out, seen, stack = [], set(), [x]
+    while stack:
+        v = stack.pop()
+        if isinstance(v, Term):
+            if v.uid in seen:
+                continue
+            seen.add(v.uid)
+            out.append(v)
+            if v.op == "atom" or v.op in SHAPE_ONLY_OPS:
+                continue
+            if v.op == "attr" and v.args[1] in ("shape", "ndim", "size", "dtype"):
+                continue
+            if v.op == "tree.tree_map" and getattr(v.args[0], "name", None) in ("np.zeros_like", "np.ones_like"):
+                continue
+            stack.extend(v.args)
+            stack.extend(v.kwargs.values())
+        elif isinstance(v, (list, tuple)):
+            stack.extend(v)
+        elif isinstance(v, dict):
+            stack.extend(v.values())
+    return out
+
+
 def value_atoms(x) -> set:
     """Atoms a value depends on *by value*: does not descend into shape-only
     constructs (ones_like / zeros_like / .shape / .ndim / .size / .dtype /
